@@ -111,10 +111,14 @@ package stake
 //@   pure
 
 // ---- the stake limiter is outside the contracts: only its frame is stated (unverified) -------------
+// a rejected change leaves the limiter as it was (C05: a failed transaction has no effect, here on the per-block
+// limiter state that later transactions of the block are judged against)
 //@ func (sl *StakeLimiter) CheckLimit(delg, changePower)
-//@   trusted
 //@   requires sl != nil && delg != nil
-//@   modifies StakeLimiter.*, powerObj.*
+//@   assumes delg.TotalPower + changePower >= 0 && (forall i :: 0 <= i && i < len(sl.powerObjs) ==> sl.powerObjs[i] != nil)
+//@   modifies sl.updatedPower, powerObj.Power, elems(sl.powerObjs)
+//@   allocates powerObj
+//@   ensures result != nil ==> sl.updatedPower == old(sl.updatedPower) && (forall o :: old(allocated(o)) ==> as(o, ptr(powerObj)).Power == old(as(o, ptr(powerObj)).Power)) && (forall i :: 0 <= i && i < len(sl.powerObjs) ==> sl.powerObjs[i] == old(sl.powerObjs[i]))   [C05]
 
 // ---- validation of staking / unstaking / withdraw transactions (C09, C12, C13) --------------------
 
